@@ -172,3 +172,17 @@ def t_function_level_import():
 
     b = B(b"\x01\x02")
     return st.pack("<H", 513), b.read(1), st.calcsize("<Q")
+
+
+def _note(log, what):
+    log.append(what)
+    return f"<{what}>"
+
+
+def t_raise_argument_effects():
+    log = []
+    try:
+        raise MyErr("refused " + _note(log, "helper ran"), code=len(log))
+    except MyErr:
+        log.append("caught")
+    return log
